@@ -216,6 +216,18 @@ var specs = map[string]spec{
 		},
 		Assumptions: commonAssumptions, Plain: true, QuickStride: 8, ThoroughStride: 8, QuickDeadline: 500, ThoroughDeadline: 3000,
 	},
+	"C14": {
+		LevelText: "exhaustive enumeration of literal carriers - one literal L in each of 11 positions a template string can originate from (literal block, string literal, string in an expression, map key, map lookup, css name, message text, raw text, global value, switch case label, param value), L over every ASCII byte, every pair of {quote, double quote, backslash, LF, CR, U+2028, U+2029, <, /} alone and embedded, and special strings up to 10 kB - plus qualified names with 1-4 segments and every bundle of the C02 grammar without the common-subset filter; the JavaScript generated under the ES5 and ES6 formatters is parsed by otto's parser (ES6 after removing its import/export keywords), evaluated, probed for one function per template, and the carrier is called: it must return exactly L, which the generator knows (the Go renderer is not consulted)",
+		LevelNote: "otto parser/interpreter as the JS engine; non-ASCII literals are parsed and evaluated but their value is not compared (otto indexes non-ASCII strings bytewise); ES6 module syntax itself is not checked by an ES6 parser",
+		Technique: "bounded exhaustive enumeration of literal carriers and bundles with parse/evaluate/return-value oracles",
+		Level:     "model_checking",
+		Rule:      "a state is a distinct (origin, literal) carrier, name or bundle; a transition is one generate+parse(+evaluate+call); non-trivial = the compiler accepted the bundle so JavaScript was generated and judged",
+		Bounds: map[string]string{
+			"quick":    "11 origins x (127 ASCII bytes + 162 special pairs + 24 special strings); 5 namespaces x 4 names; every third body of the C02 grammar (syntax under both formatters; every fifth of those evaluated)",
+			"thorough": "every body of the C02 grammar",
+		},
+		Assumptions: commonAssumptions, Plain: true, QuickStride: 6, ThoroughStride: 6, QuickDeadline: 500, ThoroughDeadline: 3000,
+	},
 	"C05": {
 		LevelText: "bounded exhaustive exploration of the real parser: every input of the stated small scopes is parsed under a controlled scheduler with a deterministic linear fuel bound (no wall clock), and small inputs under every parser/scanner interleaving up to 2 preemptions; termination, no panic, no deadlock and tree-xor-error are checked on every execution and every case is replayed on the uninstrumented build",
 		LevelNote: "assumes the bounded scopes are representative (small-scope hypothesis) and that the overlay instrumentation preserves behaviour (cross-checked case by case against the plain build)",
